@@ -49,7 +49,7 @@ Print Assumptions C09_fuse_coord_wf.
 (* ---- per run: every faulted trace of every worker is still guarded (locks released by unwinding), a fault is always
         visible as a failed outcome, and a block that did not fail performed every read and every write *)
 Theorem C09_workers_wf :
-  wf_worker fuse_worker && wf_worker compare_worker && wf_worker stats_window_worker && wf_worker stats_sums_worker = true.
+  wf_worker (guard_view fuse_worker) && wf_worker (guard_view compare_worker) && wf_worker (guard_view stats_window_worker) && wf_worker (guard_view stats_sums_worker) = true.
 Proof. vm_compute. reflexivity. Qed.
 Theorem C09_faults_visible :
   faults_visible fuse_worker && faults_visible compare_worker && faults_visible stats_window_worker && faults_visible stats_sums_worker = true.
@@ -61,11 +61,11 @@ Proof. vm_compute. reflexivity. Qed.
 Print Assumptions C09_ok_means_all_written.
 
 (* ---- hence for fuse: any number of blocks, any schedule, any faults: it terminates and all locks are free *)
-Theorem C09_fuse_terminates progs sched0 : tasks_of fuse_worker progs ->
+Theorem C09_fuse_terminates progs sched0 : tasks_of (guard_view fuse_worker) progs ->
   exists sched, length sched <= remaining (run (init progs) sched0) /\ done (run (run (init progs) sched0) sched).
 Proof. apply worker_completes. vm_compute. reflexivity. Qed.
 Print Assumptions C09_fuse_terminates.
-Theorem C09_fuse_locks_free progs sched : tasks_of fuse_worker progs ->
+Theorem C09_fuse_locks_free progs sched : tasks_of (guard_view fuse_worker) progs ->
   done (run (init progs) sched) -> forall l, snd (run (init progs) sched) l = None.
 Proof. apply worker_locks_free. vm_compute. reflexivity. Qed.
 Print Assumptions C09_fuse_locks_free.
